@@ -695,6 +695,90 @@ theorem printBof_map {o : StreamOpt} (ho : StreamFixed σ o) (e : EOL) (bofIdx :
   rw [printBof_eq, printBof_eq, (printBofPre_map ho e bofIdx).1,
     printBofPost_map ho e _ _ _ _ _ _ (printBofPre_map ho e bofIdx).2]
 
+theorem printFillerOrFallbacks_map {o : StreamOpt} (ho : StreamFixed σ o) (e : EOL) (n : Int) :
+    ∀ l : List BoF, (∀ b ∈ l, BoFFixed σ b) →
+      printFillerOrFallbacks { o with eol := e } n l =
+        (printFillerOrFallbacks o n l).mapOut (List.map σ)
+  | [], _ => rfl
+  | .filler f :: t, h => by
+    simp only [printFillerOrFallbacks]
+    rw [Run.mapOut_seq, Run.mapOut_ok, show f.map σ = f from h (.filler f) (by simp),
+      printFillerOrFallbacks_map ho e n t (fun b hb => h b (by simp [hb]))]
+  | .bound b :: t, h => by
+    have ih := printFillerOrFallbacks_map ho e n t (fun b hb => h b (by simp [hb]))
+    have hb : ∀ f, b.fallback = some f → f.map σ = f := h (.bound b) (by simp)
+    have hj : ({ o with eol := e } : StreamOpt).joiner = o.joiner := rfl
+    have hjj : (if (o.join && !b.isLast) = true then [o.joiner] else []).map σ =
+        (if (o.join && !b.isLast) = true then [o.joiner] else []) := by
+      split <;> simp [ho.joiner]
+    simp only [printFillerOrFallbacks, hj, ih]
+    split
+    · rfl
+    · split
+      · rfl
+      · cases hfb : b.fallback with
+        | some f =>
+          simp only
+          rw [Run.mapOut_seq, Run.mapOut_ok, List.map_append, hb f hfb, hjj]
+        | none =>
+          cases hoob : o.fallbackOob with
+          | some f =>
+            simp only
+            rw [Run.mapOut_seq, Run.mapOut_ok, List.map_append, ho.fallbackOob f hoob, hjj]
+          | none => rfl
+
+theorem drop_fixed {o : StreamOpt} (ho : StreamFixed σ o) (i : Nat) :
+    ∀ b ∈ o.bounds.drop i, BoFFixed σ b :=
+  fun b hb => ho.bounds b (List.mem_of_mem_drop hb)
+
+theorem endOfRecord_map {o : StreamOpt} (ho : StreamFixed σ o) (e : EOL)
+    (he : e.byte = σ o.eol.byte) (st : SState) :
+    endOfRecord { o with eol := e } (st.map σ) = (endOfRecord o st).mapOut (List.map σ) := by
+  simp only [endOfRecord, SState.map, printBof_map ho, he]
+  cases printBof o st.bofIdx st.currField st.trunc st.piece true with
+  | none => rfl
+  | some p =>
+    simp only [Option.map_some, Run.mapOut_seq, Run.mapOut_ok,
+      printFillerOrFallbacks_map ho e _ _ (drop_fixed ho _), List.map_cons, List.map_nil]
+
+theorem streamStep_map (hσ : Function.Injective σ) {o : StreamOpt} (ho : StreamFixed σ o) (e : EOL)
+    (he : e.byte = σ o.eol.byte) (st : SState) (c : UInt8) (last : Bool) :
+    streamStep { o with eol := e } (st.map σ) (σ c) last =
+      ((streamStep o st c last).1.mapOut (List.map σ), (streamStep o st c last).2.map σ) := by
+  have h1 : (σ c = σ o.eol.byte) = (c = o.eol.byte) :=
+    propext ⟨fun h => hσ h, fun h => h ▸ rfl⟩
+  have h2 : (σ c = o.delimiter) = (c = o.delimiter) :=
+    propext ⟨fun h => hσ (h.trans ho.delimiter.symm), fun h => by rw [h, ho.delimiter]⟩
+  unfold streamStep
+  simp only [he, h1, h2, SState.map, List.isEmpty_map, printBof_map ho]
+  split
+  · split <;> rfl
+  · split
+    · split
+      · rfl
+      · have := endOfRecord_map ho e he st
+        simp only [SState.map] at this
+        simp only [this, List.map_nil]
+    · split
+      · cases printBof o st.bofIdx st.currField st.trunc st.piece true with
+        | none => rfl
+        | some p =>
+          simp only [Option.map_some]
+          by_cases hl : Side.some st.currField = o.lastInterestingField
+          · rw [if_pos hl, if_pos hl]
+            simp only [Run.mapOut_seq, Run.mapOut_ok,
+              printFillerOrFallbacks_map ho e _ _ (drop_fixed ho _), List.map_nil]
+          · rw [if_neg hl, if_neg hl]
+            simp only [Run.mapOut_ok, List.map_nil]
+      · split
+        · have := printBof_map ho e st.bofIdx st.currField st.trunc (st.piece ++ [c]) false
+          simp only [List.map_append, List.map_cons, List.map_nil] at this
+          simp only [this]
+          cases printBof o st.bofIdx st.currField st.trunc (st.piece ++ [c]) false with
+          | none => rfl
+          | some p => simp only [Option.map_some, Run.mapOut_ok, List.map_nil]
+        · simp only [Run.mapOut_empty, List.map_append, List.map_cons, List.map_nil]
+
 end stream
 
 end Tuc
